@@ -148,4 +148,4 @@ def _extra_checks_base(tier, rng, binaries, log):
 def extra_checks(tier, rng, binaries, log):
     """+ the REAL http_client (sim_driver client mode): see tools/clientsim.py"""
     import clientsim
-    return _extra_checks_base(tier, rng, binaries, log) + clientsim.run(tier, rng.fork("client"), binaries, log, ['life', 'abort'])
+    return _extra_checks_base(tier, rng, binaries, log) + S.net_twoshut_checks(tier, binaries, log, ['net_driver', 'net_driver_tls'], PROP) + clientsim.run(tier, rng.fork("client"), binaries, log, ['life', 'abort'])
